@@ -84,13 +84,16 @@ CFG = {
     # survives a function: scopes, pruned / poisoned sets, resolution ids; parameters and constants); ctx = uses as
     # assignment target and inside their own declaration, else-parts, a label named like the variable; ret = the result
     # expression after `return:` with `goto return`; phased = two labels x two variables in longer bodies; else = if / else
-    # chains of blocks and gotos up to 6 (7) items (`if c { } else goto y; var a; y: x = a;` has 6)
+    # chains of blocks and gotos up to 6 (7) items (`if c { } else goto y; var a; y: x = a;` has 6); dead = bodies that open with a
+    # block, bare gotos, two label names, 7 (8) items: `{ goto y; var a; z: x = a; y: }` -- declarations in dead code after an
+    # unconditional goto, used after a later label (seventh round of seeded changes)
     "mc_cfg": {"quick": ["MC_VarScope_quick.cfg", "MC_VarScope_quick_cfgs.cfg", "MC_VarScope_fns_quick.cfg",
                          "MC_VarScope_fnscfgs_quick.cfg", "MC_VarScope_ctx_quick.cfg", "MC_VarScope_ret_quick.cfg",
-                         "MC_VarScope_phased_quick.cfg", "MC_VarScope_else_quick.cfg"],
+                         "MC_VarScope_phased_quick.cfg", "MC_VarScope_else_quick.cfg", "MC_VarScope_dead_quick.cfg"],
                "thorough": ["MC_VarScope_thorough.cfg", "MC_VarScope_thorough_cfgs.cfg", "MC_VarScope_thorough_2labels.cfg",
                             "MC_VarScope_fns_thorough.cfg", "MC_VarScope_fnscfgs_thorough.cfg", "MC_VarScope_ctx_thorough.cfg",
-                            "MC_VarScope_ret_thorough.cfg", "MC_VarScope_phased_thorough.cfg", "MC_VarScope_else_thorough.cfg"]},
+                            "MC_VarScope_ret_thorough.cfg", "MC_VarScope_phased_thorough.cfg", "MC_VarScope_else_thorough.cfg",
+                            "MC_VarScope_dead_thorough.cfg"]},
     "prepare": prepare,
     "workers": 8,
     "compare": compare,
